@@ -152,7 +152,7 @@ func workerCmd(ctx context.Context, exe string, spec *Spec, j job, tier string, 
 	cmd.Stdout = logf
 	cmd.Stderr = logf
 	cmd.Env = append(os.Environ(), "TZ=UTC", "GOTRACEBACK=all",
-		"GORACE=halt_on_error=0 log_path="+filepath.Join(outDir, "race."+j.tag))
+		"GORACE=halt_on_error=0 exitcode=0 log_path="+filepath.Join(outDir, "race."+j.tag))
 	cmd.Cancel = func() error { return cmd.Process.Signal(syscall.SIGQUIT) }
 	cmd.WaitDelay = 10 * time.Second
 	return cmd, logf
